@@ -31,6 +31,7 @@ struct NBuf {
     T* blk{nullptr};
     int n{0};
     int pad{0};
+    T* sp_front{nullptr}; // shared position of single-pass iterators into this buffer
     NBuf(char const* nm, std::vector<T> const& init, int mode, int padn) : name{nm}, n{static_cast<int>(init.size())}, pad{mode == 0 ? 0 : padn}
     {
         blk = static_cast<T*>(::operator new(static_cast<std::size_t>(n + 2 * pad) * sizeof(T)));
@@ -73,6 +74,7 @@ auto vstr(std::vector<T> const& v) -> std::string
 auto nverdict(std::string const& e, std::string const& s) -> std::string
 {
     if (vf::it::g_out_of_range) { return "an iterator was moved or dereferenced outside the range passed; etl gave " + e + ", std gives " + s; }
+    if (g_second_pass) { return "a single-pass input iterator was dereferenced or advanced after the range had already been traversed past it (second pass); etl gave " + e + ", std gives " + s; }
     for (auto const& gfn : nguards()) {
         auto gd = gfn();
         if (!gd.empty()) { return "out of range: " + gd + "; etl gave " + e + ", std gives " + s; }
@@ -80,23 +82,34 @@ auto nverdict(std::string const& e, std::string const& s) -> std::string
     return verdict(e, s);
 }
 
-template <typename K, typename T>
-auto nat(NBuf<T>& a, int i)
+template <char Id, typename T>
+auto nat_id(NBuf<T>& a, int i)
 {
-    if constexpr (K::id == 'P') {
+    if constexpr (Id == 'P') {
         return a.b() + i;
-    } else if constexpr (K::id == 'I') {
-        // plain etl category tags (namespace std not associated): reduce.hpp calls `reduce(...)` / `accumulate(...)`
-        // unqualified, which ADL would make ambiguous with std:: for iterators that have std as associated namespace
-        return vf::it::Iter<T, etl::input_iterator_tag>{a.b() + i, a.b(), a.e()};
+    } else if constexpr (Id == 'I') {
+        // truly single-pass (see SP in C06_common.cpp); its category tag lives in namespaces c06/etl only, so the
+        // unqualified `reduce(...)` / `accumulate(...)` calls inside reduce.hpp stay unambiguous
+        if (a.b() + i != a.e() || a.n == 0) { a.sp_front = a.b() + i; }
+        return SP<T>{a.b() + i, a.b(), a.e(), &a.sp_front};
     } else {
         return vf::it::Iter<T, etl::forward_iterator_tag>{a.b() + i, a.b(), a.e()};
     }
 }
 template <typename K, typename T>
+auto nat(NBuf<T>& a, int i)
+{
+    return nat_id<K::k1::id>(a, i);
+}
+template <typename K, typename T>
+auto nat2(NBuf<T>& a, int i)
+{
+    return nat_id<K::k2::id>(a, i);
+}
+template <typename K, typename T>
 auto noat(NBuf<T>& a, int i)
 {
-    if constexpr (K::id == 'P') {
+    if constexpr (K::ko::id == 'P') {
         return a.b() + i;
     } else {
         return OutT<T>{a.b() + i, a.b(), a.e()};
@@ -141,7 +154,9 @@ auto a_accumulate(Case const& c) -> std::string
         Scope sc;
         auto r3 = etl::accumulate(nat<K>(H, 0), nat<K>(H, len(c)), 1);
         static_assert(std::is_same_v<decltype(r3), int>, "accumulate must return the type of init");
-        e = num(static_cast<long>(etl::accumulate(nat<K>(A, 0), nat<K>(A, len(c)), U{7}))) + "," + num(static_cast<long>(etl::accumulate(nat<K>(A, 0), nat<K>(A, len(c)), U{7}, Fold{}))) + "," + num(r3);
+        auto r1 = etl::accumulate(nat<K>(A, 0), nat<K>(A, len(c)), U{7}); // one call per statement (single-pass traversals)
+        auto r2 = etl::accumulate(nat<K>(A, 0), nat<K>(A, len(c)), U{7}, Fold{});
+        e       = num(static_cast<long>(r1)) + "," + num(static_cast<long>(r2)) + "," + num(r3);
     }
     return nverdict(e, s);
 }
@@ -155,8 +170,10 @@ auto a_reduce(Case const& c) -> std::string
     std::string e;
     {
         Scope sc;
-        e = num(static_cast<long>(etl::reduce(nat<K>(A, 0), nat<K>(A, len(c))))) + "," + num(static_cast<long>(etl::reduce(nat<K>(A, 0), nat<K>(A, len(c)), U{7}))) + ","
-          + num(static_cast<long>(etl::reduce(nat<K>(A, 0), nat<K>(A, len(c)), U{3}, etl::multiplies<>{})));
+        auto r1 = etl::reduce(nat<K>(A, 0), nat<K>(A, len(c)));
+        auto r2 = etl::reduce(nat<K>(A, 0), nat<K>(A, len(c)), U{7});
+        auto r3 = etl::reduce(nat<K>(A, 0), nat<K>(A, len(c)), U{3}, etl::multiplies<>{});
+        e       = num(static_cast<long>(r1)) + "," + num(static_cast<long>(r2)) + "," + num(static_cast<long>(r3));
     }
     return nverdict(e, s);
 }
@@ -174,7 +191,9 @@ auto a_inner_product(Case const& c) -> std::string
     std::string e;
     {
         Scope sc;
-        e = num(static_cast<long>(etl::inner_product(nat<K>(A, 0), nat<K>(A, len(c)), nat<K>(B, 0), U{7}))) + "," + num(static_cast<long>(etl::inner_product(nat<K>(A, 0), nat<K>(A, len(c)), nat<K>(B, 0), U{7}, Fold{}, Mix{})));
+        auto r1 = etl::inner_product(nat<K>(A, 0), nat<K>(A, len(c)), nat2<K>(B, 0), U{7});
+        auto r2 = etl::inner_product(nat<K>(A, 0), nat<K>(A, len(c)), nat2<K>(B, 0), U{7}, Fold{}, Mix{});
+        e       = num(static_cast<long>(r1)) + "," + num(static_cast<long>(r2));
     }
     return nverdict(e, s);
 }
@@ -192,8 +211,10 @@ auto a_transform_reduce(Case const& c) -> std::string
     std::string e;
     {
         Scope sc;
-        e = num(static_cast<long>(etl::transform_reduce(nat<K>(A, 0), nat<K>(A, len(c)), nat<K>(B, 0), U{7}))) + "," + num(static_cast<long>(etl::transform_reduce(nat<K>(A, 0), nat<K>(A, len(c)), nat<K>(B, 0), U{7}, etl::plus<>{}, Mix{}))) + ","
-          + num(static_cast<long>(etl::transform_reduce(nat<K>(A, 0), nat<K>(A, len(c)), U{7}, etl::plus<>{}, Sq{})));
+        auto r1 = etl::transform_reduce(nat<K>(A, 0), nat<K>(A, len(c)), nat2<K>(B, 0), U{7});
+        auto r2 = etl::transform_reduce(nat<K>(A, 0), nat<K>(A, len(c)), nat2<K>(B, 0), U{7}, etl::plus<>{}, Mix{});
+        auto r3 = etl::transform_reduce(nat<K>(A, 0), nat<K>(A, len(c)), U{7}, etl::plus<>{}, Sq{});
+        e       = num(static_cast<long>(r1)) + "," + num(static_cast<long>(r2)) + "," + num(static_cast<long>(r3));
     }
     return nverdict(e, s);
 }
@@ -330,7 +351,9 @@ auto a_iter_helpers(Case const& c) -> std::string
             }
         }
         for (int k = ra ? 0 : c.m; k <= L; ++k) {
-            e += "dist" + num(k) + "=" + num(etl::distance(at<K>(A, c.m), at<K>(A, k))) + " ";
+            auto dl = at<K>(A, k); // `last` is made before `first`: a single-pass traversal starts where `first` is made
+            auto df = at<K>(A, c.m);
+            e += "dist" + num(k) + "=" + num(etl::distance(df, dl)) + " ";
             s += "dist" + num(k) + "=" + num(std::distance(A.b() + c.m, A.b() + k)) + " ";
         }
     }
@@ -530,8 +553,16 @@ auto table() -> std::vector<Entry> const&
         C06_REG(a_reduce, "reduce", 0, KI),
         C06_REG(a_inner_product, "inner_product", D_BSAME, KP),
         C06_REG(a_inner_product, "inner_product", D_BSAME, KI),
+        C06_REG(a_inner_product, "inner_product", D_BSAME, Kpi),
+        C06_REG(a_inner_product, "inner_product", D_BSAME, Kip),
+        C06_REG(a_inner_product, "inner_product", D_BSAME, Kfi),
+        C06_REG(a_inner_product, "inner_product", D_BSAME, Kpf),
         C06_REG(a_transform_reduce, "transform_reduce", D_BSAME, KP),
         C06_REG(a_transform_reduce, "transform_reduce", D_BSAME, KI),
+        C06_REG(a_transform_reduce, "transform_reduce", D_BSAME, Kpi),
+        C06_REG(a_transform_reduce, "transform_reduce", D_BSAME, Kip),
+        C06_REG(a_transform_reduce, "transform_reduce", D_BSAME, Kfi),
+        C06_REG(a_transform_reduce, "transform_reduce", D_BSAME, Kpf),
         C06_REG(a_adjacent_difference, "adjacent_difference", 0, KP),
         C06_REG(a_adjacent_difference, "adjacent_difference", 0, KF),
         C06_REG(a_partial_sum, "partial_sum", 0, KP),
